@@ -91,7 +91,7 @@ class ModelEngine(Engine):
     name = 'epochs_c10'
     max_ops = 30
     expected_probes = ['read_in_other_epoch', 'xml_read', 'json_read', 'dm_read', 'path_read', 'stream_read', 'short_read_stream',
-                       'scaled_property', 'symbols_with_gap', 'masses_partly_none', 'units_given_without_names', 'format_name_not_lower_case', 'mass_zero', 'one_atom_system', 'length1_array',
+                       'scaled_property', 'symbols_with_gap', 'masses_partly_none', 'units_given_without_names', 'format_name_not_lower_case', 'mass_zero', 'refused_reset_raised', 'refused_dump_raised', 'refused_record_raised', 'one_atom_system', 'length1_array',
                        'rank3_value', 'rewrite_chain', 'elastic_normalised', 'unseeded_epoch', 'string_property', 'error_field',
                        'noncontiguous_input', 'box_read_into_used_object', 'io_error_read_raised', 'second_write_same_arguments', 'single_property_record', 'integer_typed_positions', 'nonfinite_values_round_tripped', 'same_object_dumped_again_after_edit', 'scribble_on_normalized_copy']
     rule = ('Each run is a history of up to 30 operations over a set of up to 10 serialised artifacts: build a value-with-units / '
@@ -162,7 +162,10 @@ class ModelEngine(Engine):
         cfg = st['cfg']
         if not st['arts']:
             return self._gen_write(ctx, st)
-        k = ctx.wchoice([('write', 1.5), ('restart', cfg['w_restart']), ('read', 3.0), ('rewrite', 0.8)])
+        k = ctx.wchoice([('write', 1.5), ('restart', cfg['w_restart']), ('read', 3.0), ('rewrite', 0.8),
+                         ('refused_reset', 0.0 if cfg['fault_free'] else 0.4)])
+        if k == 'refused_reset':
+            return {'op': 'refused_reset', 'what': r.choice(['seed_with_names', 'five_named', 'unknown_name'])}
         if k == 'write' and len(st['arts']) >= 10:
             k = 'read'
         if k == 'write':
@@ -272,12 +275,12 @@ class ModelEngine(Engine):
                         if not any(x == 0.0 for x in masses if x is not None):
                             masses[0] = 0.0
                 op.update(symbols=syms, masses=masses, pbc=[r.random() < 0.6 for _ in range(3)], box_unit=r.choice([None, 'angstrom', 'nm', 'm']),
-                          via=r.choice(['model', 'dump']), fmt_case=r.choice(['lower', 'lower', 'lower', 'upper', 'title']))
+                          via=r.choice(['model', 'dump']), refused_dump=r.random() < 0.4, fmt_case=r.choice(['lower', 'lower', 'lower', 'upper', 'title']))
         else:
             # a positive-definite stiffness of a given crystal system, SI (Pa)
             system = r.choice(['triclinic', 'cubic', 'hexagonal', 'orthorhombic', 'isotropic-as-cubic', 'rhombohedral', 'tetragonal'])
             op.update(system=system, C=self._gen_cij(r, system), unit=self._gen_units(ctx, 'pressure'),
-                      normalise=r.random() < 0.4, poke_normalized=r.random() < 0.3)
+                      normalise=r.random() < 0.4, poke_normalized=r.random() < 0.3, refused_read=r.random() < 0.35)
         return op
 
     @staticmethod
@@ -347,6 +350,28 @@ class ModelEngine(Engine):
         if k == 'restart':
             self._epoch(ctx, st, op)
             ctx.fault('restart')
+            return
+        if k == 'refused_reset':
+            # a request for other working units that is refused: the process goes on in the units it had, and what it wrote
+            # before is read back after as if nothing had been asked
+            before = tuple(ut.base_of(nu))
+            what = op['what']
+            if what == 'seed_with_names':
+                ok, res = ctx.sut(uc.reset_units, 7, length='angstrom')
+            elif what == 'five_named':
+                ok, res = ctx.sut(uc.reset_units, length='nm', mass='kg', time='s', energy='eV', charge='e')
+            else:
+                ok, res = ctx.sut(uc.reset_units, length='angstom', mass='amu')
+            ctx.fault('refused_reset')
+            now = tuple(ut.base_of(nu))
+            if not ok:
+                ctx.probe('refused_reset_raised')
+                if now != before:
+                    raise Violation('C10.J5', {'what': 'a refused reset_units() changed the working units between a write and a read', 'case': what,
+                                               'exception': type(res).__name__}, klass='refused-reset-changed-units/' + what)
+            elif now != before:
+                st['base'] = ut.base_of(nu)         # not refused after all: a new epoch like any other
+                st['epoch'] += 1
             return
         if k == 'write':
             art = self._write(ctx, st, op)
@@ -485,6 +510,20 @@ class ModelEngine(Engine):
                 nobj.Cij = np.asarray(nobj.Cij) * 2.0 + 1.0e-3 * float(np.abs(C).max())
                 ctx.fault('scribble_on_normalized_copy')
                 ctx.probe('scribble_on_normalized_copy')
+            if op.get('refused_read'):
+                # the live object is asked to take its constants from a record it has to refuse (one of two symmetric entries
+                # edited): it goes on holding what it held
+                badrec = DM(ec.model(unit='GPa').json())
+                vals = badrec['elastic-constants']['Cij']['value']
+                vals[1] = vals[1] * 2.5 + 1.0
+                ok2, _ = ctx.sut(ec.model, model=badrec)
+                ctx.fault('refused_record')
+                if not ok2:
+                    ctx.probe('refused_record_raised')
+                else:
+                    # taken after all (the symmetry test is absolute in working units and these are tiny numbers here): the
+                    # caller asked for it, so start again from the constants of this operation
+                    ec = ctx.must('C10.X', am.ElasticConstants, Cij=C, klass='ElasticConstants()')
             em = ctx.must('C10.J6', ec.model, unit=op['unit'], crystal_system=cs, klass='ElasticConstants.model/' + cs)
             t.fields['Cij'] = {'si': np.array(op['C'], dtype=float), 'dim': ut.PRESSURE, 'tagged': op['unit'] is not None}
             payload = self._emit(ctx, st, em, enc, indent, dest, 'C10.J4', 'elastic')
@@ -615,6 +654,14 @@ class ModelEngine(Engine):
                     st['nfile'] += 1
                     p = os.path.join(st['scratch'], 'd%d.%s' % (st['nfile'], op['enc']))
                     ctx.must('C10.J4', system.dump, 'system_model', f=p, klass='dump/system_model/path', **ikw, **kw)
+                    if op.get('refused_dump'):
+                        # a second request for the same file that the library refuses (unknown unit): the file keeps the first dump
+                        bad = {k2: v for k2, v in kw.items() if k2 not in ('prop_unit', 'prop_name', 'unit')}
+                        bad['prop_unit'] = {'atype': None, 'pos': 'no_such_unit'}
+                        ok2, _ = ctx.sut(system.dump, 'system_model', f=p, **ikw, **bad)
+                        ctx.fault('refused_dump')
+                        if not ok2:
+                            ctx.probe('refused_dump_raised')
                     with open(p, encoding='UTF-8') as f:
                         text = f.read()
                 else:
